@@ -167,17 +167,42 @@ def check(run, model, tier):
         arg_side = [x for x in (l, r) if any(isinstance(y, ast.Name) and y.id == f.params[1] for y in ast.walk(x))]
         run.inst('IDENT.cancel-match', f, 'compares the record with the caller\'s argument', len(arg_side) == 1, 'match does not involve the argument: %s' % sides, node=mt.ast, obligation=True)
         # ---- the scan
-        heads = [h for h in g.loop_heads() if h.kind == 'for']
+        heads = [h for h in g.loop_heads() if h.kind in ('for', 'test')]
         if len(heads) != 1:
-            raise AnalysisError('%s: expected one for-loop scan' % nm)
+            raise AnalysisError('%s: expected one loop scanning the tracking deque' % nm)
         h = heads[0]
-        it = norm(expand_locals(h.stmt.iter, f.node, params=f.params))
-        ok = it in ('reversed(range(len(%s)))' % track, 'range(len(%s))' % track)
-        run.inst('SCAN.visit-once', f, 'runs len(tracked) iterations', ok,
-                 '' if ok else 'the scan iterates %s, not once per tracked source' % it, node=h.stmt, obligation=True)
+        if h.kind == 'for':
+            it = norm(expand_locals(h.stmt.iter, f.node, params=f.params))
+            ok = it in ('reversed(range(len(%s)))' % track, 'range(len(%s))' % track)
+            run.inst('SCAN.visit-once', f, 'runs len(tracked) iterations', ok,
+                     '' if ok else 'the scan iterates %s, not once per tracked source' % it, node=h.stmt, obligation=True)
+            body_start = [m for m, l2 in g.succ[h] if l2 == 'iter'][0]
+        else:
+            # countdown form: n = len(tracked) taken once before the loop; while n > 0: n -= 1 (exactly once per iteration, nothing else writes n)
+            from sa.util import compare_parts as _cp
+            cp = _cp(h.ast)
+            cnt_v = None
+            if cp and isinstance(cp[0], ast.Name) and isinstance(cp[2], ast.Constant) and ((cp[1] is ast.Gt and cp[2].value == 0) or (cp[1] is ast.GtE and cp[2].value == 1) or (cp[1] is ast.NotEq and cp[2].value == 0)):
+                cnt_v = cp[0].id
+            elif cp and isinstance(cp[2], ast.Name) and isinstance(cp[0], ast.Constant) and cp[1] is ast.Lt and cp[0].value == 0:
+                cnt_v = cp[2].id
+            if cnt_v is None:
+                raise AnalysisError('%s: the scan loop `while %s` is not a countdown of a snapshot of len(%s)' % (nm, norm(h.ast), track))
+            body = g.loop_body(h)
+            writes = [n for n in g.nodes if n.kind == 'stmt' and isinstance(n.ast, (ast.Assign, ast.AugAssign)) and
+                      any(isinstance(x, ast.Name) and x.id == cnt_v and isinstance(x.ctx, ast.Store) for tg in (n.ast.targets if isinstance(n.ast, ast.Assign) else [n.ast.target]) for x in ast.walk(tg))]
+            inits = [n for n in writes if n not in body]
+            decs = [n for n in writes if n in body]
+            init_ok = len(inits) == 1 and isinstance(inits[0].ast, ast.Assign) and norm(expand_locals(inits[0].ast.value, f.node, params=f.params)) == 'len(%s)' % track and g.dominates(inits[0], h)
+            dec_ok = bool(decs) and all(isinstance(d.ast, ast.AugAssign) and isinstance(d.ast.op, ast.Sub) and isinstance(d.ast.value, ast.Constant) and d.ast.value.value == 1 for d in decs)
+            body_start = [m for m, l2 in g.succ[h] if l2 == 'true'][0]
+            per = queues.count(g, decs, start=body_start, end=h)
+            ok = init_ok and dec_ok and per == (1, 1)
+            run.inst('SCAN.visit-once', f, 'runs len(tracked) iterations', ok,
+                     '' if ok else ('the scan `while %s` does not run once per tracked source: the counter must be a snapshot of len(%s) taken before the loop and go down by exactly one per '
+                                    'iteration (initialised ok: %s, decrements per iteration: %s)' % (norm(h.ast), track, init_ok, per)), node=h.ast, obligation=True)
         pops = queues.ops_on(g, track, {'pop', 'popleft'}, fnode=f.node)
         rots = queues.ops_on(g, track, {'rotate'}, fnode=f.node)
-        body_start = [m for m, l2 in g.succ[h] if l2 == 'iter'][0]
         nodes = [n for n, c, m in pops + rots]
         # per iteration (to the loop head or out through a break): exactly one of pop/rotate
         cnt_back = queues.count(g, nodes, start=body_start, end=h)
@@ -193,7 +218,7 @@ def check(run, model, tier):
         insp = [s for s in walk_shallow(f.node) if isinstance(s, ast.Subscript) and dotted(expand_locals(s.value, f.node, params=f.params)) == track]
         ok = bool(insp) and all(isinstance(s.slice, ast.UnaryOp) and isinstance(s.slice.op, ast.USub) and isinstance(s.slice.operand, ast.Constant) and s.slice.operand.value == 1 for s in insp)
         run.inst('SCAN.visit-once', f, 'inspects the right-most record [-1]', ok, 'the inspected element is not the one pop()/rotate(1) acts on', obligation=True)
-        brks = [n for n in g.loop_body(h) | set(g.nodes) if n.kind == 'stmt' and isinstance(n.ast, ast.Break)]
+        brks = [n for n in g.nodes if n.kind == 'stmt' and (isinstance(n.ast, ast.Break) or (isinstance(n.ast, ast.Return) and n in g.loop_body(h)))]
         for b in brks:
             ok = guarded_by_edge(g, b, mt, M_TRUE)
             run.inst('SCAN.visit-once', f, 'leaves the scan early only after a match', ok, 'break on the unmatched branch ends the scan before every source was inspected', node=b.ast, obligation=True)
